@@ -30,6 +30,12 @@ fn base_product(d: &Dims) -> String {
     d.iter().map(|(k, e)| if *e == 1 { regdump::q(k) } else { format!("{}^{}", regdump::q(k), e) }).collect::<Vec<_>>().join(" ")
 }
 
+/// A second, small database with its own quantity names, queried on the same thread (and after
+/// the same questions have been put to the bundled one), and a database whose quantity table is
+/// changed by a further load: an answer must come from the context that is asked.
+const SMALL_DB: &str = "m !meter\ns !second\nkg !kilogram\nlength ? m\nduration ? s\nspeed ? length / duration\nrate ? 1 / duration\nheft ? kg\nmile 1609 m\n";
+const SMALL_XS: [&str; 6] = ["m / s", "m", "1 / s", "kg m / s", "m^2", "speed"];
+
 fn score(d: &Dims) -> i64 {
     d.values().map(|p| 1 + p.abs()).sum()
 }
@@ -90,6 +96,7 @@ impl C17 {
         let mut fams = Fams::default();
         fams.add("units for X", vec![xs.len() as u64]);
         fams.add("factorize X", vec![xs.len() as u64]);
+        fams.add("another database on the same thread / a further load on the same context", vec![SMALL_XS.len() as u64, 2]);
         C17 { fams, xs, max_score: if thorough { 9 } else { 8 }, dump, ctx: Lazy::new() }
     }
 
@@ -110,12 +117,82 @@ impl C17 {
     }
 }
 
+impl C17 {
+    fn run_other_db(&mut self, idx: u64) -> CaseOut {
+        let (_, d) = self.fams.locate(idx);
+        // after the rename the quantity of m/s is called velocity
+        let x = if d[1] == 1 && SMALL_XS[d[0] as usize] == "speed" { "velocity" } else { SMALL_XS[d[0] as usize] };
+        let mut out = CaseOut::ok("other database").key(hash64(&("other", x, d[1])));
+        let big = self.ctx.get(fresh_ctx);
+        // the same questions to the bundled database first (same thread)
+        let _ = eval_q(big, &format!("factorize {}", x));
+        let _ = eval_q(big, &format!("units for {}", x));
+        let mut small = Context::new();
+        small.use_humanize = false;
+        let _ = small.load_definitions(SMALL_DB);
+        if d[1] == 1 {
+            // ask once, then rename a quantity by a further load (reported as a conflict, but loaded), ask again
+            let _ = eval_q(&small, &format!("factorize {}", x));
+            let _ = eval_q(&small, &format!("units for {}", x));
+            let _ = small.load_definitions("velocity ? m / s\npace 2 m\n");
+        }
+        let dump = regdump::dump(&small);
+        let xd = match eval_q(&small, &format!("1 ({})", x)) {
+            Ok(QueryReply::Number(p)) => p.raw_value.map(|r| dims_of(&r)).unwrap_or_default(),
+            _ => match dump.quantity_dims.get(x) {
+                Some(d) => d.clone(),
+                None => return out.viol("harness: cannot evaluate X in the small database", x.to_string()),
+            },
+        };
+        match eval_q(&small, &format!("factorize {}", x)) {
+            Ok(QueryReply::Factorize(r)) => {
+                for fz in &r.factorizations {
+                    let mut prod = Dims::new();
+                    for (name, pow) in &fz.units {
+                        match dump.quantity_dims.get(&***name) {
+                            Some(qd) => prod = dims_mul(&prod, &dims_pow(qd, *pow as i64), 1),
+                            None => out = out.viol("factorize: names something that is not a quantity of the context that was asked", format!("`factorize {}` on the small database: {}", x, name)),
+                        }
+                    }
+                    if prod != xd {
+                        out = out.viol("factorize: product does not multiply out to X (small database)", format!("`factorize {}`: {} but X is {}", x, dims_str(&prod), dims_str(&xd)));
+                    }
+                }
+                if r.factorizations.is_empty() && x != "kg m / s" && x != "m^2" {
+                    out = out.viol("factorize: no answer although a quantity of that dimensionality exists", format!("`factorize {}` on the small database", x));
+                }
+            }
+            Ok(o) => out = out.viol("factorize: unexpected reply", format!("`factorize {}` -> {}", x, reply_kind(&o))),
+            Err(e) => out = out.viol("factorize: refused", format!("`factorize {}`: {}", x, e)),
+        }
+        match eval_q(&small, &format!("units for {}", x)) {
+            Ok(QueryReply::UnitsFor(r)) => {
+                let listed: BTreeSet<String> = r.units.iter().flat_map(|c| c.units.iter().cloned()).collect();
+                for u in &listed {
+                    let ok = dump.units.get(u).map(|ud| ud.dims == xd).unwrap_or(false) || dump.base_units.contains(u) || dump.long_names.values().any(|l| l == u);
+                    if !ok {
+                        out = out.viol("units for: lists a name that is not a unit of that dimensionality in the context that was asked", format!("`units for {}` on the small database: {}", x, u));
+                    }
+                }
+                for ud in dump.units.values() {
+                    if ud.dims == xd && !ud.is_alias && !listed.contains(&ud.name) {
+                        out = out.viol("units for: a unit of the small database is missing", format!("`units for {}`: {}", x, ud.name));
+                    }
+                }
+            }
+            Ok(o) => out = out.viol("units for: unexpected reply", format!("`units for {}` -> {}", x, reply_kind(&o))),
+            Err(e) => out = out.viol("units for: refused", format!("`units for {}`: {}", x, e)),
+        }
+        out
+    }
+}
+
 impl Space for C17 {
     fn meta(&self) -> Meta {
         Meta {
             id: "C17",
             level: "exploration",
-            rule: "every named quantity, every dimensionality occurring in the registry and every product of up to 2 (thorough 3) base units with exponents in -3..3, each written as the quantity name, as a unit of that dimensionality, as a product of base units, and as that product with an extra factor raised to the power 0 (`p b^0`, `(p)^0 p`): `units for X` must list exactly the non-alias units of the registry dump with that exponent vector (plus the base unit itself for a single base unit to the first power), each once, under its own category's display name, with non-empty non-repeated groups, identically for all spellings; `factorize X` (complexity score bounded) must return only products of quantities whose exponent vectors multiply out to X's, no duplicates, identically for all spellings. Non-trivial = all; distinct by (command, dimensionality)".into(),
+            rule: "every named quantity, every dimensionality occurring in the registry and every product of up to 2 (thorough 3) base units with exponents in -3..3, each written as the quantity name, as a unit of that dimensionality, as a product of base units, and as that product with an extra factor raised to the power 0 (`p b^0`, `(p)^0 p`): `units for X` must list exactly the non-alias units of the registry dump with that exponent vector (plus the base unit itself for a single base unit to the first power), each once, under its own category's display name, with non-empty non-repeated groups, identically for all spellings; `factorize X` (complexity score bounded) must return only products of quantities whose exponent vectors multiply out to X's, no duplicates, identically for all spellings. Plus a second, small database with its own quantity names asked on the same thread after the bundled one, and the same database after a further load renamed a quantity: every name in an answer must belong to the context that was asked. Non-trivial = all; distinct by (command, dimensionality)".into(),
             assumptions: vec![
                 "factorize beyond the complexity bound is exponential: not explored here (C04 records it); a timeout inside the bound is recorded, not judged".into(),
             ],
@@ -128,6 +205,9 @@ impl Space for C17 {
     }
     fn describe(&self, idx: u64) -> String {
         let (f, d) = self.fams.locate(idx);
+        if f == 2 {
+            return format!("factorize / units for {} on a small database {}", SMALL_XS[d[0] as usize], if d[1] == 0 { "after the bundled one on the same thread" } else { "after a further load renamed a quantity" });
+        }
         let x = &self.xs[d[0] as usize];
         format!("{} {}   (spellings: {})", if f == 0 { "units for" } else { "factorize" }, base_product(&x.dims), x.spellings.join(" | "))
     }
@@ -147,6 +227,9 @@ impl Space for C17 {
         self.ctx.clear();
     }
     fn run(&mut self, idx: u64) -> CaseOut {
+        if self.fams.locate(idx).0 == 2 {
+            return self.run_other_db(idx);
+        }
         let (f, d) = self.fams.locate(idx);
         let x = &self.xs[d[0] as usize];
         let expected = self.expected_units(&x.dims);
